@@ -145,6 +145,8 @@ mut("C20 dot via rfold", [(VEC, "            .zip(rhs.elements.iter())\n        
 mut("C20 AddAssign skips component 0", [(VEC, "        for i in 0..D {\n            self[i] += &rhs[i];", "        for i in 1..D {\n            self[i] += &rhs[i];")], C20="C20-b")
 mut("C20 sub adds", [(VEC, "elements: array::from_fn(|i| self[i].ref_sub(&rhs[i])),", "elements: array::from_fn(|i| self[i].ref_add(&rhs[i])),")], C20="C20-b")
 mut("C20 squared uses first component", [(VEC, ".fold(self.elements[0].zero(), |acc, x| acc + x.ref_mul(x))", ".fold(self.elements[0].zero(), |acc, x| acc + x.ref_mul(&self.elements[0]))")], C20="C20-b")
+mut("C20 from_vec reverses", [(VEC, "            elements: elements\n                .try_into()\n                .unwrap_or_else(|_| panic!(\"invalid dimension\")),", "            elements: { let mut e = elements; e.reverse(); e.try_into().unwrap_or_else(|_| panic!(\"invalid dimension\")) },")], C20="C20-b")
+mut("C20 N: from_vec by indexed clone", [(VEC, "            elements: elements\n                .try_into()\n                .unwrap_or_else(|_| panic!(\"invalid dimension\")),", "            elements: { assert!(elements.len() == D, \"invalid dimension\"); array::from_fn(|i| elements[i].clone()) },")], C20=None)
 mut("C20 N: commuted products", [(VEC, "                acc + left.ref_mul(right)", "                right.ref_mul(left) + acc")], C20=None)
 
 # ---- C15-e / C15-f / C08-c ----
